@@ -21,6 +21,7 @@
 #include <stdio.h>
 #include <stdlib.h>
 #include <string.h>
+#include <unistd.h>
 #include <vnacal.h>
 #include <vnaproperty.h>
 #include "vt.h"
@@ -49,7 +50,7 @@ static const char *name_pool[] = { "a", "b", "c" };
 #define N_NAMES 3
 static const char *pkey_pool[] = { "ka", "kb", "kc" };
 #define N_PKEYS 3
-static const char *pval_pool[] = { "x", "y", "z=1", "" };
+static const char *pval_pool[] = { "x", "y", "z=1", "w 2" };
 #define N_PVALS 4
 
 static int same_c(double complex a, double complex b)
@@ -150,6 +151,10 @@ typedef struct ninfo {
     int grid[2];		/* planned frequency ids */
     int nstds;			/* accepted standards */
     int step;			/* script position for "useful" standards */
+    int fset;			/* set_frequency_vector succeeded */
+    int solved;			/* last solve succeeded, not yet stored */
+    int usedh[16];		/* user handles named in accepted standards */
+    int nused;
 } ninfo_t;
 
 typedef struct vinfo {
@@ -165,15 +170,20 @@ typedef struct vinfo {
 
 static vinfo_t VC[MAX_VC];
 static int next_new_id;
+static int next_file_id;
+
+static long live_base;
 
 static void vc_reset(void)
 {
+    live_base = vt_alloc_live;
     memset(VC, 0, sizeof(VC));
     for (int i = 0; i < MAX_VC; ++i) {
 	VC[i].id = i;
 	VC[i].lastn = -1;
     }
     next_new_id = 0;
+    next_file_id = 0;
 }
 
 static void h_init(vinfo_t *v)
@@ -359,7 +369,12 @@ static void project_prop(vnacal_t *vcp, int ci, const char *prefix, int depth)
     }
 }
 
-#define PV_TOL 1e-6
+/* 100 x the default p_tolerance (1e-6) of the iterative solver; deviations
+ * observed on correct code <= 8.2e-8, a wrong value (initial guess, another
+ * parameter) is off by >= 3.6e-2 */
+#define PV_TOL 1e-4
+static double pv_max_dev;	/* largest accepted deviation (CALSTORE_STATS) */
+static double pv_min_rej = 1e300;	/* smallest rejected deviation */
 
 /* result of get_parameter_value as the trace encodes it */
 static void put_pv(const vinfo_t *v, int h, double complex r)
@@ -370,7 +385,15 @@ static void put_pv(const vinfo_t *v, int h, double complex r)
     }
     if (h >= 0 && h < MAX_H && (v->h[h].kind == K_UNKNOWN ||
 		v->h[h].kind == K_CORRELATED)) {
-	vt_put(cabs(r - v->h[h].truth) <= PV_TOL ? "\"T\"" : "\"W\"");
+	{
+	    double dev = cabs(r - v->h[h].truth);
+
+	    if (dev <= PV_TOL && dev > pv_max_dev)
+		pv_max_dev = dev;
+	    if (dev > PV_TOL && dev < pv_min_rej)
+		pv_min_rej = dev;
+	    vt_put(dev <= PV_TOL ? "\"T\"" : "\"W\"");
+	}
 	return;
     }
     put_gid(r);
@@ -445,7 +468,8 @@ static void ev_finish(int ok)
 {
     int first = 1;
 
-    vt_put(",\"ok\":%d,\"err\":\"%s\",", ok, vt_errname(ev_errno));
+    vt_put(",\"ok\":%d,\"err\":\"%s\",\"al\":%ld,", ok, vt_errname(ev_errno),
+	    vt_alloc_live - live_base);
     vt_cb = ev_cb;
     vt_put_cb();
     vt_put(",\"obs\":[");
@@ -692,6 +716,8 @@ static void op_set_frequency_vector(vinfo_t *v, ninfo_t *n, int cls)
     BEFORE();
     rv = LIB(vnacal_new_set_frequency_vector(n->vnp, fv));
     CAPTURE();
+    if (rv == 0)
+	n->fset = 1;
     vt_put("{\"e\":\"SetFrequencyVector\",\"vc\":%d,\"n\":%d,\"fv\":[", v->id,
 	    n->id);
     for (int i = 0; i < n->nf; ++i)
@@ -824,8 +850,13 @@ static int op_add_std(vinfo_t *v, ninfo_t *n, int shape, const int *ports,
 	break;
     }
     CAPTURE();
-    if (rv == 0)
+    if (rv == 0) {
 	++n->nstds;
+	for (int i = 0; i < nhs; ++i) {
+	    if (hs[i] >= 3 && n->nused < 16)
+		n->usedh[n->nused++] = hs[i];
+	}
+    }
     vt_put("{\"e\":\"AddStd\",\"vc\":%d,\"n\":%d,\"shape\":\"%s\",\"ab\":%d,"
 	    "\"ports\":[", v->id, n->id, shape_name[shape], ab);
     for (int i = 0; i < nports; ++i)
@@ -845,6 +876,7 @@ static void op_solve(vinfo_t *v, ninfo_t *n)
     BEFORE();
     rv = LIB(vnacal_new_solve(n->vnp));
     CAPTURE();
+    n->solved = rv == 0;
     vt_put("{\"e\":\"Solve\",\"vc\":%d,\"n\":%d", v->id, n->id);
     ev_finish(ok_int(rv));
 }
@@ -875,6 +907,8 @@ static void op_add_calibration(vinfo_t *tv, ninfo_t *n, int namei)
     BEFORE();
     ci = LIB(vnacal_add_calibration(tv->vcp, name_pool[namei], n->vnp));
     CAPTURE();
+    if (ci >= 0)
+	n->solved = 0;
     if (ci > tv->hici && ci < 64)
 	tv->hici = ci;
     vt_put("{\"e\":\"AddCalibration\",\"vc\":%d,\"n\":%d,\"name\":\"c%d\","
@@ -1013,6 +1047,39 @@ static void op_set_precision(vinfo_t *v, int which, int p)
     ev_finish(ok_int(rv));
 }
 
+/* vnacal_save, and vnacal_load of the same file into store slot k2 */
+
+static void op_save_load(vinfo_t *v, int k2)
+{
+    char path[128];
+    int file = next_file_id++;
+    int rv;
+
+    snprintf(path, sizeof(path), "/tmp/calstore-drv-%ld-%d.vnacal",
+	    (long)getpid(), file);
+    BEFORE();
+    rv = LIB(vnacal_save(v->vcp, path));
+    CAPTURE();
+    vt_put("{\"e\":\"Save\",\"vc\":%d,\"file\":%d", v->id, file);
+    ev_finish(ok_int(rv));
+    if (rv == 0 && k2 >= 0) {
+	vinfo_t *w = &VC[k2];
+	vnacal_t *vcp;
+
+	BEFORE();
+	vcp = LIB(vnacal_load(path, vt_errfn, NULL));
+	CAPTURE();
+	if (vcp != NULL) {
+	    h_init(w);
+	    w->vcp = vcp;
+	    w->hici = LIB(vnacal_get_calibration_end(vcp)) - 1;
+	}
+	vt_put("{\"e\":\"Load\",\"vc\":%d,\"file\":%d", k2, file);
+	ev_finish(vcp != NULL);
+    }
+    (void)unlink(path);
+}
+
 static void op_free(vinfo_t *v)
 {
     BEFORE();
@@ -1026,9 +1093,15 @@ static void op_free(vinfo_t *v)
     ev_finish(1);
 }
 
+/* live_base: in-library blocks live when the episode began; a leak is
+ * charged to the episode that caused it, not to those that follow in the
+ * same process */
+
 static void op_end(void)
 {
-    vt_put("{\"e\":\"End\",\"live\":%ld}", vt_alloc_live);
+    if (getenv("CALSTORE_STATS") != NULL)
+	fprintf(stderr, "pv_max_dev %g pv_min_rej %g\n", pv_max_dev, pv_min_rej);
+    vt_put("{\"e\":\"End\",\"live\":%ld}", vt_alloc_live - live_base);
     vt_end_line();
 }
 
@@ -1481,6 +1554,24 @@ static void random_std(vinfo_t *v, ninfo_t *n, vt_rng_t *rng)
     (void)op_add_std(v, n, shape, ports, hs, ab);
 }
 
+/* the next step of the documented flow for this new: frequencies,
+ * standards, solve, add_calibration, and then further standards */
+static void progress(vinfo_t *v, ninfo_t *n, vt_rng_t *rng)
+{
+    if (!n->fset && vt_below(rng, 3) != 0)
+	op_set_frequency_vector(v, n, 0);
+    else if (!useful_done(n, n->id & 1))
+	(void)add_useful(v, n, n->id & 1, vt_below(rng, 6) == 0);
+    else if (!n->fset)
+	op_set_frequency_vector(v, n, 0);
+    else if (!n->solved)
+	op_solve(v, n);
+    else if (vt_below(rng, 4) != 0)
+	op_add_calibration(v, n, vt_below(rng, N_NAMES));
+    else
+	(void)add_useful(v, n, n->id & 1, 0);
+}
+
 static void random_step(vt_rng_t *rng, int *variant)
 {
     vinfo_t *live[MAX_VC];
@@ -1497,6 +1588,29 @@ static void random_step(vt_rng_t *rng, int *variant)
 	return;
     v = live[vt_below(rng, nl)];
     n = pick_new(v, rng);
+    if (n != NULL && vt_below(rng, 100) < 30) {
+	progress(v, n, rng);
+	return;
+    }
+    if (n != NULL && n->nused > 0 && vt_below(rng, 100) < 8) {
+	/* a handle this new uses: delete it, keep using it there, read it */
+	int h = n->usedh[vt_below(rng, n->nused)];
+	int q = vt_below(rng, 4);
+
+	if (v->h[h].deleted)
+	    q = q < 3 ? 1 : 2;
+	if (q <= 1 && !v->h[h].deleted) {
+	    op_delete_parameter(v, h);
+	} else if (q <= 1) {
+	    int ports[2] = { 1 + vt_below(rng, n->rows), 2 };
+	    int hs[1] = { h };
+
+	    (void)op_add_std(v, n, SH_REFL1, ports, hs, 0);
+	} else {
+	    op_get_parameter_value(v, h, n->grid[vt_below(rng, n->nf)]);
+	}
+	return;
+    }
     r = vt_below(rng, 1000);
     if (r < 50) {
 	int gi = vt_below(rng, 12) == 0 ? vt_below(rng, 3) :
@@ -1569,7 +1683,7 @@ static void random_step(vt_rng_t *rng, int *variant)
 	    op_set_z0(v, n, vt_below(rng, N_Z));
     } else if (r < 600) {
 	if (n != NULL) {
-	    if (vt_below(rng, 100) < 65)
+	    if (vt_below(rng, 100) < 30)
 		(void)add_useful(v, n, n->id & 1, vt_below(rng, 5) == 0);
 	    else
 		random_std(v, n, rng);
@@ -1600,7 +1714,8 @@ static void random_step(vt_rng_t *rng, int *variant)
 	if (n != NULL)
 	    op_new_free(v, n);
     } else if (r < 970) {
-	static const int ps[] = { 1, 6, 7, 12, 1000, 0, -1 };
+	/* larger precisions (and VNACAL_MAX_PRECISION) are C07's subject */
+	static const int ps[] = { 1, 3, 6, 7, 9, 0, -1 };
 
 	op_set_precision(v, vt_below(rng, 2), ps[vt_below(rng, 7)]);
     } else if (r < 980) {
@@ -1609,13 +1724,17 @@ static void random_step(vt_rng_t *rng, int *variant)
 	else
 	    op_type_to_name(vt_below(rng, 8));
     } else if (r < 992) {
-	/* a second vnacal_t */
+	/* a second vnacal_t: created, or loaded from a save of this one */
+	int k2 = -1;
+
 	for (int i = 0; i < MAX_VC; ++i) {
-	    if (VC[i].vcp == NULL) {
-		op_create(i);
-		break;
-	    }
+	    if (VC[i].vcp == NULL)
+		k2 = i;
 	}
+	if (vt_below(rng, 2) == 0)
+	    op_save_load(v, k2);
+	else if (k2 >= 0)
+	    op_create(k2);
     } else {
 	if (nl > 1)
 	    op_free(v);
@@ -1638,7 +1757,8 @@ static const int grid12[2] = { 1, 2 };
 enum {
     A_MS3, A_MS4, A_MS1, A_MV, A_MU, A_MC, A_MCN, A_DF, A_DL, A_DP, A_DB,
     A_GV, A_NA1, A_NA2, A_NABAD, A_SF, A_SFBAD, A_AR, A_AS, A_ASALL, A_SO,
-    A_ACA, A_ACB, A_DC0, A_DC1, A_FI, A_GE, A_PSG, A_PS0, A_PD0, A_NF, A_FR,
+    A_ACA, A_ACB, A_DC0, A_DC1, A_FI, A_GE, A_PSG, A_PS0, A_PD0, A_NF, A_SL,
+    A_FR,
     N_ALPHA
 };
 
@@ -1693,6 +1813,7 @@ static int exh_call(vinfo_t *v, int a)
     case A_PS0:  prop_simple(&pop, PK_SET, 0, 1); op_prop(v, 0, &pop); break;
     case A_PD0:  prop_simple(&pop, PK_DEL, 0, 0); op_prop(v, 0, &pop); break;
     case A_NF:   if (n != NULL) op_new_free(v, n); break;
+    case A_SL:   op_save_load(v, VC[1].vcp == NULL ? 1 : -1); break;
     case A_FR:   op_free(v); return 1;
     }
     return 0;
@@ -1760,7 +1881,16 @@ int main(int argc, char **argv)
 	    vt_rng_t rng;
 	    int steps, variant;
 
-	    vt_seed(&rng, seed * 1000003ull + (uint64_t)c);
+	    /* vt_seed maps consecutive seeds to the same splitmix orbit
+	     * shifted by one step, so mix the case number first */
+	    {
+		uint64_t z = seed * 0xD1342543DE82EF95ull +
+		    (uint64_t)c * 0xAF251AF3B0F025B5ull + 0x2545F4914F6CDD1Dull;
+
+		z = (z ^ (z >> 32)) * 0xBF58476D1CE4E5B9ull;
+		z = (z ^ (z >> 29)) * 0x94D049BB133111EBull;
+		vt_seed(&rng, z ^ (z >> 32));
+	    }
 	    vc_reset();
 	    vt_put("{\"e\":\"Reset\",\"case\":\"rand:%llu:%ld:%d\"}",
 		    (unsigned long long)seed, c, len);
